@@ -320,6 +320,16 @@ func ExecOn(sto blobserver.Storage, w []string) string {
 	return st.exec(w)
 }
 
+// ExecOnTree is ExecOn for a storage built from a tree by the caller: ops that address the tree's
+// sub-stores (seedlower, subrecv, …) work too. The caller owns env.
+func ExecOnTree(env *stores.Env, root *stores.Node, sto blobserver.Storage, w []string) string {
+	if len(w) > 0 && w[0] == "cfg" {
+		return "bad-op"
+	}
+	st := &execState{env: env, sto: sto, root: root}
+	return st.exec(w)
+}
+
 // NewExec returns a fresh interpreter; its temp directory lives until the next cfg or process exit.
 func NewExec() func(w []string) string {
 	st := &execState{}
